@@ -209,6 +209,7 @@ func (sc *StateContext) AddTransfer(t *state.Transfer) error {
 		return errors.New("invalid transaction ToClientID")
 	}
 	sc.transfers = append(sc.transfers, t)
+	verifObsTransfer(sc, t)
 
 	return nil
 }
@@ -217,6 +218,7 @@ func (sc *StateContext) AddTransfer(t *state.Transfer) error {
 func (sc *StateContext) AddSignedTransfer(st *state.SignedTransfer) {
 	// Signature on the signed transfer will be checked on call to sc.Validate()
 	sc.signedTransfers = append(sc.signedTransfers, st)
+	verifObsSignedTransfer(sc, st)
 }
 
 // GetTransfers - get all the transfers
@@ -409,6 +411,7 @@ func (sc *StateContext) GetTrieNode(key datastore.Key, v util.MPTSerializable) e
 		if !ccv.CopyFrom(cv) {
 			panic("state context cache - get trie node copy from failed")
 		}
+		verifObsGet(sc, key, v, true)
 		return nil
 	}
 
@@ -422,6 +425,7 @@ func (sc *StateContext) GetTrieNode(key datastore.Key, v util.MPTSerializable) e
 	if cv, ok := statecache.Cacheable(v); ok {
 		sc.Cache().Set(key, cv)
 	}
+	verifObsGet(sc, key, v, false)
 	return nil
 }
 
@@ -435,6 +439,7 @@ func (sc *StateContext) InsertTrieNode(key datastore.Key, node util.MPTSerializa
 	if ok {
 		sc.Cache().Set(key, vn)
 	}
+	verifObsInsert(sc, key, node)
 
 	return k, nil
 }
@@ -446,6 +451,7 @@ func (sc *StateContext) DeleteTrieNode(key datastore.Key) (datastore.Key, error)
 	}
 
 	sc.Cache().Remove(key)
+	verifObsDelete(sc, key)
 	return k, nil
 }
 
